@@ -233,10 +233,47 @@ def laneValues : List String → String
     | _, _, _, _, _, _, _, _, _, _ => "bad-op"
   | _ => "bad-op"
 
+
+/-- names the three stacks write or rewrite themselves (outside the cross-protocol comparison). -/
+def xOwn : List Bytes :=
+  [Req.H2.sHostL, Req.H2.sUserAgentL, Req.H2.sContentLengthL, Req.H2.sTransferEncodingL,
+   Req.H2.sConnectionL, Req.H2.sAcceptEncodingL, Req.H2.sCookieL, [116, 101],
+   [116, 114, 97, 105, 108, 101, 114]]
+
+def trimBlanks (v : Bytes) : Bytes :=
+  ((v.dropWhile fun b => b == 32 || b == 9).reverse.dropWhile fun b => b == 32 || b == 9).reverse
+
+/-- `c16xbag <h2|h3> …` (arguments of `c16fields`) → what an origin's handler sees of the caller's
+headers: the regular fields whose name no stack owns, as sorted `name: value` lines (values
+without surrounding blanks). -/
+def laneXBag : List String → String
+  | [fl, m, raw, host, hdr, cl, hb, nb, gz, lim] =>
+    let fl? : Option Req.H2.Flavor :=
+      if fl == "h2" then some .h2 else if fl == "h3" then some .h3 else none
+    let lim? : Option (Option Nat) := if lim == "-" then some none else lim.toNat?.map some
+    match fl?, decodeHex m, decodeHex raw, decodeHex host, Wire.decodeHdr hdr, decodeInt cl,
+          Wire.decodeBool hb, Wire.decodeBool nb, Wire.decodeBool gz, lim? with
+    | some fl, some m, some raw, some host, some hdr, some cl, some hb, some nb, some gz, some lim =>
+      match Req.Url.parse raw with
+      | .error _ => "bad-op"
+      | .ok u =>
+        let r : Req.H2.FReq := { method := m, url := u, host := host, header := hdr,
+                                 contentLength := cl, hasBody := hb, noBody := nb, addGzip := gz,
+                                 maxHeaderList := lim }
+        match Req.H2.fields fl r with
+        | .error e => showFErr e
+        | .ok fs =>
+          let keep := fs.filter fun f => f.1.head? != some 58 && !xOwn.contains f.1
+          let lines := keep.map fun f => f.1 ++ [58, 32] ++ trimBlanks f.2
+          "bag " ++ encodeList (lines.mergeSort Req.BStr.le)
+    | _, _, _, _, _, _, _, _, _, _ => "bad-op"
+  | _ => "bad-op"
+
 def lanes : List (String × (List String → String)) := [
   ("c16values", laneValues),
   ("c16rewrite", laneRewrite),
   ("c16listed", laneListed),
+  ("c16xbag", laneXBag),
   ("c16hframes", laneHFrames),
   ("c16resend", laneResend),
   ("sort", laneSort),
